@@ -88,3 +88,11 @@ impl LabelStore {
         &self.labels[label.0]
     }
 }
+
+#[cfg(feature = "verif-hooks")]
+impl LabelRef {
+    /// Verification hook: the index of this label in its store.
+    pub fn verif_index(self) -> usize {
+        self.0
+    }
+}
